@@ -4,7 +4,6 @@ package main
 
 import (
 	"fmt"
-	"sort"
 	"strings"
 
 	"github.com/Azbesciak/RealDecisionMaker/lib/logic/biases/anchoring"
@@ -18,92 +17,19 @@ import (
 //   spec  : check-c19 (exact rationals) on Go's output, only for positive coefficients
 //   oracle: a panic on valid props (tagged by class)
 
-func funDefSX(d interface{}) SX {
-	m := asMap(d)
-	fn, _ := m["function"].(string)
-	return L(Str(fn), propsSX(m["params"]))
-}
 
-// ((id (none)|(some k))...) for []interface{} (JSON) and []map[string]interface{} (typed) forms
-func anchoringAltsSX(v interface{}) (SX, bool, bool) {
-	out := sxList{}
-	positive := true
-	one := func(m map[string]interface{}, missingIsOne bool) {
-		id, _ := m["alternative"].(string)
-		if _, ok := m["coefficient"]; ok {
-			k := numField(m, "coefficient")
-			positive = positive && k > 0
-			out = append(out, L(Str(id), L(A("some"), Num(k))))
-		} else {
-			positive = positive && missingIsOne // a missing coefficient becomes 1 only in the typed form
-			out = append(out, L(Str(id), L(A("none"))))
-		}
-	}
-	switch l := v.(type) {
-	case []interface{}:
-		for _, e := range l {
-			one(asMap(e), false)
-		}
-		return out, false, positive
-	case []map[string]interface{}:
-		for _, e := range l {
-			one(e, true)
-		}
-		return out, true, positive
-	}
-	return out, false, positive
-}
 
-func anchoringPropsSX(p interface{}) (SX, bool) {
-	m := asMap(p)
-	alts, typed, positive := anchoringAltsSX(m["anchoringAlternatives"])
-	rf, _ := asMap(m["referencePoints"])["function"].(string)
-	return L(alts, Bool(typed), funDefSX(m["loss"]), funDefSX(m["gain"]), Str(rf), funDefSX(m["applier"])), positive
-}
 
-func scalingSX(s anchoring.CriteriaScaling) SX {
-	keys := make([]string, 0, len(s))
-	for k := range s {
-		keys = append(keys, k)
-	}
-	sort.Strings(keys)
-	out := make(sxList, len(keys))
-	for i, k := range keys {
-		out[i] = L(Str(k), L(Num(s[k].Scale), Num(s[k].ValuesRange.Min), Num(s[k].ValuesRange.Max)))
-	}
-	return out
-}
 
-func diffsSX(ds []anchoring.ReferencePointsDifference) SX {
-	out := make(sxList, len(ds))
-	for i, d := range ds {
-		rs := make(sxList, len(d.ReferencePointsDifference))
-		for j, rp := range d.ReferencePointsDifference {
-			rs[j] = L(Str(rp.ReferencePoint), KMapF(rp.Coefficients))
-		}
-		out[i] = L(altSX(d.Alternative), rs)
-	}
-	return out
-}
 
-func applierResultSX(v interface{}) SX {
-	switch a := v.(type) {
-	case anchoring.InlineAnchoringApplierResult:
-		return L(A("inline"), altsSX(a.AppliedDifferences))
-	case anchoring.NewCriterionAnchoringApplierResult:
-		added := make(sxList, len(a.AddedCriteria))
-		for i, c := range a.AddedCriteria {
-			added[i] = L(Str(c.Id), Str(string(c.Type)), Num(c.ValuesRange.Min), Num(c.ValuesRange.Max),
-				additionSX(c.MethodParameters), KMapF(c.AlternativesValues))
-		}
-		return L(A("newCriterion"), critSX(a.ReferenceCriterion), added)
-	}
-	panic(fmt.Sprintf("unexpected applier result %T", v))
-}
 
-func anchReportSX(rep anchoring.AnchoringResult) SX {
-	return L(altsSX(rep.ReferencePoints), scalingSX(rep.CriteriaScaling), diffsSX(rep.PerReferencePointsDifferences), applierResultSX(rep.ApplierResult))
-}
+
+
+
+
+
+
+
 
 func drawListsSX(seed int64, lists, k int) SX {
 	out := make(sxList, lists)
@@ -226,10 +152,7 @@ func typedAlts(props interface{}) interface{} {
 	return out
 }
 
-func isExp(d interface{}) bool {
-	fn, _ := asMap(d)["function"].(string)
-	return fn == "expFromZero"
-}
+
 
 func init() {
 	props["C19"] = func(o *Out, r *Rng, n int, thorough bool) {
